@@ -394,7 +394,8 @@ class MultiVector:
     def asmatrix(self):
         """ Returns a matrix representation of this multivector. """
         bin2index = {k: i for i, k in enumerate(self.algebra.canon2bin.values())}
-        return sum(v * self.algebra.matrix_basis[bin2index[k]] for k, v in self.items())
+        # (start from the zero matrix: the zero multivector has no items and would otherwise give the number 0)
+        return sum((v * self.algebra.matrix_basis[bin2index[k]] for k, v in self.items()), 0 * self.algebra.matrix_basis[0])
 
     def asfullmv(self, canonical=True):
         """
